@@ -133,6 +133,31 @@ theorem pool_queue_reaches_stuck (c : PoolQueue.Cfg) (es0 : List PoolQueue.Ev) (
           · exact hp e' h1
         · simp only [PoolQueue.run, hs]; exact hr
 
+/-- how the stage-tree model (Model/Pipeline.lean) sees a task of the pool: `pooled` = its own
+goroutine `[exec s]` runs, `rejected` = `track true` on the submitting goroutine -/
+def runOfTask (s : PoolQueue.St) (i : Nat) : Option Pipeline.Run :=
+  match s.ph i with
+  | .executed => some .pooled
+  | .rejected => some .rejected
+  | _ => none
+
+/-- **pool_queue_refines_launch.** The abstraction `launch s` of the stage-tree model (a pooled
+stage is EITHER executed on a worker OR rejected, decided once — `PStage.resolutions`) is what the
+queue model yields for every task once the pool has come to rest, whatever the saturation,
+cancellation and stop timing: each submitted task resolves to exactly one `Run`, with exactly one
+completion of its stage. -/
+theorem pool_queue_refines_launch (cap slots : Nat) (hcap : 0 < cap) (hslots : 0 < slots)
+    (es : List PoolQueue.Ev) (s : PoolQueue.St)
+    (h : PoolQueue.run ⟨cap, slots, false⟩ PoolQueue.init es = some s)
+    (hg : s.consumersGone = false) (hst : PoolQueue.Stuck ⟨cap, slots, false⟩ s) (i : Nat)
+    (hsub : s.ph i ≠ .idle) :
+    (runOfTask s i = some .pooled ∨ runOfTask s i = some .rejected) ∧ s.done i = 1 := by
+  have := pool_queue_every_task_completes cap slots hcap hslots es s h hg hst i hsub
+  refine ⟨?_, this.1⟩
+  rcases this.2.1 with h1 | h1
+  · left; simp [runOfTask, h1]
+  · right; simp [runOfTask, h1]
+
 /-- non-vacuity: a saturated run (capacity 1, one consumer, three tasks; task 1's Submit is blocked on
 the full channel and then rejected by its context, task 0 is cancelled while it waits in the channel
 and is executed all the same, task 2 goes through after the channel has room again) ends in a state that
